@@ -70,7 +70,7 @@ PARSE_STREAM_ENSURES = [
 M_OF_COMB = "meaning_of_ctor(parse_table({c}).1)"
 
 
-MODULES = ["core", "optable", "entries", "gen", "guards", "names", "det", "builder", "parse", "sep"]
+MODULES = ["core", "optable", "entries", "gen", "guards", "names", "det", "builder", "parse", "sep", "steps"]
 
 
 def common_units():
@@ -302,10 +302,15 @@ def core_units():
     return u
 
 
-JOIN_STEPS = fn("join_steps", "r", attrs="#[verifier::loop_isolation(false)]\n",
+JS_D, JS_ST, JS_V, JS_SRN = "self.depths@", "step_number as int", "result_vars@", "step_results_name.toks()"
+JOIN_STEPS = fn("join_steps", "r", attrs="#[verifier::loop_isolation(false)]\n#[verifier::rlimit(600)]\n",
                 requires=["result_vars@.len() == self.depths@.len()", "result_pats@.len() == self.depths@.len()", "self.branch_count == self.depths@.len()",
                           "self.max_step_count >= 1", "self.depths@.len() >= 1"],
-                ensures=[],
+                ensures=["r@ == join_steps_spec(self.config.is_try, self.transpose, !(step_number < self.max_step_count - 1), self.branch_count as int, "
+                         "self.depths@, step_number as int, step_stream@, next_step_stream, "
+                         "let_tuple(seq_toks_sep(filter_active(result_pats@, self.depths@, step_number as int, result_pats@.len() as int), ','), step_results_name.toks()), "
+                         "result_vars@, step_results_name.toks(), seq![Tok::Ident(construct_internal_value_name_spec())])"],
+                proof_prologue="proof { lemma_take_full(self.depths@); }",
                 subst=[{"find": "<TPat: ToTokens + Clone, TVar: ToTokens + Clone, TName: ToTokens>", "replace": "",
                         "why": "monomorphised at the only instantiation (ToTokens for JoinOutput passes Vec<TokenStream>, Vec<Ident>, Ident)", "sig": True},
                        {"find": "&[TPat]", "replace": "&[TokenStream]", "why": "monomorphisation", "sig": True},
@@ -315,10 +320,40 @@ JOIN_STEPS = fn("join_steps", "r", attrs="#[verifier::loop_isolation(false)]\n",
                         "replace": "let transpose = self.transpose; let max_step_count = self.max_step_count; let branch_count = self.branch_count;",
                         "why": "Verus does not support reference patterns; same bindings"}],
                 closures={
-                    "|&(index, _)|": {"id": "P", "params": ["&(usize, &Ident)"], "ret": "(r: bool)"},
-                    "|(index, (_, result_var))|": {"id": "F", "params": ["(usize, (usize, &Ident))"], "ret": "(r: (TokenStream, TokenStream))"},
-                    "|(index, result_var)|": {"id": "C", "params": ["(usize, &Ident)"], "ret": "(r: Option<Ident>)"},
-                }, iter_loops={"0": {}, "1": {}, "2": {}})
+                    "|&(index, _)|": {"id": "P", "params": ["&(usize, &Ident)"], "ret": "(r: bool)",
+                                      "requires": ["(*__Pp0).0 < %s.len()" % JS_D],
+                                      "ensures": ["r == (%s[(*__Pp0).0 as int] > step_number)" % JS_D]},
+                    "|(index, (_, result_var))|": {"id": "F", "params": ["(usize, (usize, &Ident))"], "ret": "(r: (TokenStream, TokenStream))",
+                                                   "ensures": ["r.0@ =~= js_check(__Fp0.1.1.toks())", "r.1@ =~= js_arm(__Fp0.0, __Fp0.1.1.toks())"]},
+                    "|(index, result_var)|": {"id": "C", "params": ["(usize, &Ident)"], "ret": "(r: Option<Ident>)",
+                                              "requires": ["__Cp0.0 < %s.len()" % JS_D],
+                                              "ensures": ["r == (if %s[__Cp0.0 as int] > step_number { None::<Ident> } else { Some(*__Cp0.1) })" % JS_D]},
+                    "||": {"params": [], "ret": "(r: TokenStream)", "ensures": ["r@ == bg(no_toks(), Delim::Paren, bt(no_toks(), seq_toks_sep(result_vars@, ',')))"]},
+                },
+                iter_loops={
+                    "0": {"invariant": [
+                        "%s.len() == %s.len()" % (JS_V, JS_D), "__i <= __it.len()", "__it@ == %s" % JS_V, "__j <= __i",
+                        "__j as int == active_pos(%s, %s, __i as int)" % (JS_D, JS_ST),
+                        "ts_views(__a@) =~= checks_list(%s, %s, %s, __i as int)" % (JS_V, JS_D, JS_ST),
+                        "ts_views(__b@) =~= arms_list(%s, %s, %s, __i as int)" % (JS_V, JS_D, JS_ST),
+                        "forall|q: &(usize, &Ident)| (*q).0 < %s.len() ==> __p.requires((q,))" % JS_D,
+                        "forall|q: &(usize, &Ident), r: bool| __p.ensures((q,), r) ==> r == (%s[(*q).0 as int] > step_number)" % JS_D,
+                        "forall|a: (usize, (usize, &Ident))| __f.requires((a,))",
+                        "forall|a: (usize, (usize, &Ident)), r: (TokenStream, TokenStream)| __f.ensures((a,), r) ==> (r.0@ == js_check(a.1.1.toks()) && r.1@ == js_arm(a.0, a.1.1.toks()))"],
+                        "body_prologue": "proof { lemma_count_take_step(%s, %s, __i as int); }" % (JS_D, JS_ST),
+                        "after": "proof { lemma_join_comma(__a@); lemma_join_comma(__b@); }"},
+                    "1": {"invariant": [
+                        "step_results_name.tokenizable()", "branch_index <= __hi", "__hi == %s.len()" % JS_D, "index <= branch_index",
+                        "index as int == active_pos(%s, %s, branch_index as int)" % (JS_D, JS_ST),
+                        "ts_views(__v@) =~= oks_list(%s, %s, %s, branch_index as int)" % (JS_SRN, JS_D, JS_ST)],
+                        "body_prologue": "proof { lemma_count_take_step(%s, %s, branch_index as int); }" % (JS_D, JS_ST),
+                        "after": "proof { lemma_join_comma(__v@); }"},
+                    "2": {"invariant": [
+                        "%s.len() == %s.len()" % (JS_V, JS_D), "__i <= __it.len()", "__it@ == %s" % JS_V,
+                        "__v@ =~= filter_inactive(%s, %s, %s, __i as int)" % (JS_V, JS_D, JS_ST),
+                        "forall|a: (usize, &Ident)| a.0 < %s.len() ==> __f.requires((a,))" % JS_D,
+                        "forall|a: (usize, &Ident), r: Option<Ident>| __f.ensures((a,), r) ==> r == (if %s[a.0 as int] > step_number { None::<Ident> } else { Some(*a.1) })" % JS_D]},
+                })
 
 
 def gen_units():
@@ -456,9 +491,6 @@ def gen_units():
         fn("is_block_expr", "r", ensures=["r == (expr is Block)"]),
         fn("is_lower_precedence_than_method_call", "r", ensures=["r == low_prec(*expr)"]),
     ]))
-    # C04 / C05 / C06 / C12: how one step is joined with the next (monomorphised at TPat = TokenStream, TVar = TName = Ident,
-    # the only instantiation: ToTokens for JoinOutput)
-    u.append(fns(F_JO, [JOIN_STEPS], self_ty="JoinOutput"))
     # C03: where a step begins: the fold of `JoinOutput::new` that splits a branch's members at the `~` marks (R15 + R13)
     u.append(ty(F_CHAIN, "ActionExprChain"))
     u.append(fns(F_CHAIN, [
@@ -537,6 +569,28 @@ def gen_units():
                              "forall|a: Option<StepAcc<'a>>, p: (usize, &&'a ExprGroup<ActionExpr>)| (p.0 < %s.len() && *p.1 == %s[p.0 as int] && (a is None <==> p.0 == 0) && (a is Some ==> frame_inv(a->0.step_streams@, %s, p.0 as int))) ==> __g.requires((a, p))" % (ACTS, ACTS, ACTS),
                              "forall|a: Option<StepAcc<'a>>, p: (usize, &&'a ExprGroup<ActionExpr>), r: Option<StepAcc<'a>>| __g.ensures((a, p), r) ==> (r is Some && frame_inv(r->0.step_streams@, %s, p.0 as int + 1))" % ACTS,
                          ]}})})
+    return u
+
+
+def steps_units():
+    """join_output.rs::join_steps (C04 / C05 / C06 / C12): how one step is joined with the next one; monomorphised at
+    TPat = TokenStream, TVar = TName = Ident, the only instantiation (ToTokens for JoinOutput).  Its callees appear with
+    the contracts they are verified against in module `gen`."""
+    g = gen_units()
+    u = []
+    keep_fns = {"active_step_branch_count", "is_branch_active_in_step", "generate_indexed_step_results_name", "extract_results_tuple",
+                "generate_results_transposer"}
+    for un in g:
+        if un.get("kind") == "type" and un.get("name") in ("ActionExprPos", "StepAcc", "JoinOutput"):
+            u.append(un)
+        elif un.get("kind") == "raw" and un.get("label") in ("specs_gen",):
+            u.append(un)
+        elif un.get("kind") == "fns" and un.get("self_ty") == "JoinOutput" and any(f["name"] in keep_fns for f in un["fns"]):
+            un2 = dict(un)
+            un2["fns"] = [f for f in un["fns"] if f["name"] in keep_fns]
+            u += _assume([un2])
+    u.append(raw("specs_join_steps", _read("specs_join_steps.rs")))
+    u.append(fns(F_JO, [JOIN_STEPS], self_ty="JoinOutput"))
     return u
 
 
@@ -748,6 +802,9 @@ def build_plan(repo, module):
     elif module == "gen":
         u += _assume(core_units())
         u += gen_units()
+    elif module == "steps":
+        u += _assume(core_units())
+        u += steps_units()
     elif module == "guards":
         u += guards_units()
     else:
@@ -755,7 +812,7 @@ def build_plan(repo, module):
     u.append(raw("footer", "} // verus!\nfn main() {}\n"))
     if module == "builder":
         optargs = {"new": [0], "set_id": [0]}
-    if module == "gen":
+    if module in ("gen", "steps"):
         optargs = {"generate_results_transposer": [1], "extract_results_tuple": [2, 3], "generate_def_and_step_streams": [0, 2], "wrap_last_step_stream": [1],
                    "process_step_action_expr": [0]}
     return {"repo": repo, "units": u, "optargs": optargs}
@@ -778,16 +835,16 @@ OBLIGATIONS = {
     # the `~` mark (Deferred) reaches the generator unchanged: suffix of parse_until, parse_stream, the wrapper placeholder
     "C03": [("gen", "JoinOutput::split_branch_steps"), ("gen", "vec_last_push"), ("parse", "parse_until_suffix"), ("parse", "ActionGroup::parse_stream"), ("core", "ActionGroup::to_wrapper_action_expr"),
             ("core", "ActionGroup::new"), ("core", "ExprGroup::application_type"), ("core", "ExprGroup::new")],
-    "C06": [("gen", "JoinOutput::split_branch_steps"), ("parse", "parse_until_suffix"), ("parse", "ActionGroup::parse_stream"), ("core", "ActionGroup::to_wrapper_action_expr"),
+    "C06": [("steps", "JoinOutput::join_steps"), ("steps", "lemma_join_comma"), ("steps", "lemma_count_take_step"), ("gen", "JoinOutput::split_branch_steps"), ("parse", "parse_until_suffix"), ("parse", "ActionGroup::parse_stream"), ("core", "ActionGroup::to_wrapper_action_expr"),
             ("core", "ActionGroup::new"), ("core", "ExprGroup::application_type"), ("core", "ExprGroup::new")],
-    "C04": [("gen", "JoinOutput::generate_results_transposer"), ("gen", "JoinOutput::active_step_branch_count"), ("gen", "JoinOutput::extract_results_tuple"), ("gen", "lemma_refs_toks"), ("gen", "lemma_filter_tokenizable"),
+    "C04": [("steps", "JoinOutput::join_steps"), ("steps", "lemma_join_comma"), ("steps", "lemma_count_take_step"), ("gen", "JoinOutput::generate_results_transposer"), ("gen", "JoinOutput::active_step_branch_count"), ("gen", "JoinOutput::extract_results_tuple"), ("gen", "lemma_refs_toks"), ("gen", "lemma_filter_tokenizable"),
             ("gen", "JoinOutput::is_branch_active_in_step"), ("gen", "JoinOutput::generate_indexed_step_results_name"),
             ("gen", "JoinOutput::branch_result_name"), ("gen", "JoinOutput::branch_result_pat")],
     "C07": [("entries", "lemma_entry_table")],
     "C13": [("guards", "Handler::is_map"), ("guards", "Handler::is_then"), ("guards", "Handler::is_and_then"), ("guards", "new_guards"), ("gen", "JoinOutput::generate_handle"), ("gen", "JoinOutput::extract_results_tuple"), ("gen", "JoinOutput::generate_results_transposer")],
-    "C05": [("gen", "JoinOutput::generate_results_transposer"), ("parse", "parse_until_suffix"), ("parse", "ActionGroup::parse_stream"),
+    "C05": [("steps", "JoinOutput::join_steps"), ("steps", "lemma_join_comma"), ("steps", "lemma_count_take_step"), ("gen", "JoinOutput::generate_results_transposer"), ("parse", "parse_until_suffix"), ("parse", "ActionGroup::parse_stream"),
             ("core", "ActionGroup::to_wrapper_action_expr"), ("core", "ActionGroup::new"), ("core", "ExprGroup::application_type")],
-    "C12": [("builder", "ActionExprChainBuilder::build_from_parse_stream"), ("gen", "JoinOutput::branch_result_name"), ("gen", "JoinOutput::branch_result_pat")],
+    "C12": [("steps", "JoinOutput::join_steps"), ("steps", "lemma_join_comma"), ("steps", "lemma_count_take_step"), ("builder", "ActionExprChainBuilder::build_from_parse_stream"), ("gen", "JoinOutput::branch_result_name"), ("gen", "JoinOutput::branch_result_pat")],
     "C15": [("gen", "lemma_split_balance"), ("gen", "lemma_accepted_chain_never_underflows"), ("gen", "JoinOutput::split_branch_steps"), ("gen", "JoinOutput::generate_step_branch"), ("parse", "parse_until_suffix"), ("builder", "ActionExprChainBuilder::build_from_parse_stream"), ("builder", "ActionExprChain::append_member"),
             ("builder", "lemma_append_facts"), ("builder", "lemma_balanced_depth"),
             ("gen", "JoinOutput::wrap_last_step_stream"), ("gen", "JoinOutput::process_step_action_expr"),
@@ -821,5 +878,7 @@ def reused_contracts():
     for suffix in ("process", "err", "initial"):
         out["JoinOutput::separate_block_expr_%s" % suffix] = "sep"
     out["err_is_replaceable"] = "sep"
+    for n in ("active_step_branch_count", "is_branch_active_in_step", "generate_indexed_step_results_name", "extract_results_tuple", "generate_results_transposer"):
+        out["JoinOutput::%s" % n] = "gen"
     out["initial_is_replaceable"] = "sep"
     return out
